@@ -478,7 +478,7 @@ func runJob(work, tier string, i int, plan Plan, bin, variant string, secs int, 
 	}
 	cmd := exec.Command(bin, args...)
 	cmd.Dir = work
-	cmd.Env = append(env(), "GOMAXPROCS=1", "GORACE=halt_on_error=0 log_path="+filepath.Join(work, fmt.Sprintf("race-%d", i)))
+	cmd.Env = append(env(), "GOMAXPROCS=1", "GORACE=halt_on_error=0 exitcode=0 log_path="+filepath.Join(work, fmt.Sprintf("race-%d", i)))
 	done := make(chan struct{})
 	var b []byte
 	var err error
